@@ -76,54 +76,60 @@ pub fn run(args: &Args) -> i32 {
     let thorough = args.tier == Tier::Thorough;
     let total: u64 = LATTICE_RADICES.iter().product();
     let idxs: Vec<u64> = if thorough { (0..total).collect() } else { (0..total).filter(|i| i % 18 == (args.seed % 18)).collect() };
-    let results = Mutex::new(vec![Res::default(); idxs.len()]);
-    let seed = args.seed;
-    rep.run("lattice-events", idxs.len() as u64, 300, thorough, "V_z (9) x tracks {2,3,4} x azimuth phase (8) x curvature radius (4, alternating charge) x slope (5), transverse vertex / amplitude / pad charge width cycled; quick = every 18th lattice point", |k, loc| {
-        let li = idxs[k as usize];
-        let spec = lattice_event(li, seed);
-        let m = maps();
-        let hits = ionisation(m, &spec);
-        let banks = banks(m, &signals(m, spec.sigma_z, &hits), 1000 + li as u32);
-        let h = hash64(&(li, seed));
-        match reconstruct(&banks) {
-            Err(p) => {
-                loc.note(h, hits.len() >= 13, "panic");
-                loc.violation(format!("panic:event:{}", panic_site(&p)), json!({"lattice_index": li, "spec": format!("{spec:?}"), "panic": p}));
-            }
-            Ok(Err(e)) => {
-                loc.note(h, hits.len() >= 13, "build-error");
-                loc.violation("c12:wellformed-event-rejected", json!({"lattice_index": li, "error": e}));
-            }
-            Ok(Ok(v)) => {
-                loc.note(h, hits.len() >= 13, if v.is_some() { "vertex" } else { "no-vertex" });
-                let mut r = Res { done: true, ..Default::default() };
-                if let Some(v) = v {
-                    r.found = true;
-                    r.dz = v[2] - spec.vertex[2];
-                    r.dt = (v[0] - spec.vertex[0]).hypot(v[1] - spec.vertex[1]);
+    let phases: Vec<u64> = if thorough { vec![args.seed, args.seed + 1, args.seed + 2] } else { vec![args.seed] };
+    let mut all_batches = Vec::new();
+    for (pi, &seed) in phases.iter().enumerate() {
+        let results = Mutex::new(vec![Res::default(); idxs.len()]);
+        rep.run(&format!("lattice-events-phase-{pi}"), idxs.len() as u64, 300, thorough, "V_z (9) x tracks {2,3,4} x azimuth phase (8) x curvature radius (4, alternating charge) x slope (5), transverse vertex / amplitude / pad charge width cycled; quick = every 18th lattice point", |k, loc| {
+            let li = idxs[k as usize];
+            let spec = lattice_event(li, seed);
+            let m = maps();
+            let hits = ionisation(m, &spec);
+            let banks = banks(m, &signals(m, spec.sigma_z, &hits), 1000 + li as u32);
+            let h = hash64(&(li, seed));
+            match reconstruct(&banks) {
+                Err(p) => {
+                    loc.note(h, hits.len() >= 13, "panic");
+                    loc.violation(format!("panic:event:{}", panic_site(&p)), json!({"lattice_index": li, "spec": format!("{spec:?}"), "panic": p}));
                 }
-                results.lock().unwrap()[k as usize] = r;
-                if std::env::var("AGV_DEBUG").is_ok() {
-                    eprintln!("DBG li={li} d={:?} found={} dz={:.4} dt={:.4} hits={}", unrank(li, &LATTICE_RADICES), r.found, r.dz, r.dt, hits.len());
+                Ok(Err(e)) => {
+                    loc.note(h, hits.len() >= 13, "build-error");
+                    loc.violation("c12:wellformed-event-rejected", json!({"lattice_index": li, "error": e}));
                 }
-                if loc.want_sample() {
-                    loc.sample(json!({"lattice_index": li, "true_vertex": spec.vertex, "tracks": spec.tracks.len(), "ionisation_clusters": hits.len(), "banks": banks.len(), "reconstructed": v}));
+                Ok(Ok(v)) => {
+                    loc.note(h, hits.len() >= 13, if v.is_some() { "vertex" } else { "no-vertex" });
+                    let mut r = Res { done: true, ..Default::default() };
+                    if let Some(v) = v {
+                        r.found = true;
+                        r.dz = v[2] - spec.vertex[2];
+                        r.dt = (v[0] - spec.vertex[0]).hypot(v[1] - spec.vertex[1]);
+                    }
+                    results.lock().unwrap()[k as usize] = r;
+                    if std::env::var("AGV_DEBUG").is_ok() {
+                        eprintln!("DBG li={li} d={:?} found={} dz={:.4} dt={:.4} hits={}", unrank(li, &LATTICE_RADICES), r.found, r.dz, r.dt, hits.len());
+                    }
+                    if loc.want_sample() {
+                        loc.sample(json!({"lattice_index": li, "true_vertex": spec.vertex, "tracks": spec.tracks.len(), "ionisation_clusters": hits.len(), "banks": banks.len(), "reconstructed": v}));
+                    }
                 }
             }
+        });
+        if rep.one.is_none() {
+            let rs: Vec<Res> = results.lock().unwrap().iter().copied().filter(|r| r.done).collect();
+            let mut batches = vec![judge(&rep, &format!("whole lattice, lattice phase (seed) {seed}"), &rs)];
+            if thorough {
+                let all = results.lock().unwrap().clone();
+                for phase in 0..8u64 {
+                    let sub: Vec<Res> = idxs.iter().zip(all.iter()).filter(|(i, r)| r.done && unrank(**i, &LATTICE_RADICES)[2] == phase).map(|(_, r)| *r).collect();
+                    batches.push(judge(&rep, &format!("azimuth phase {phase}, lattice phase (seed) {seed}"), &sub));
+                }
+            }
+            eprintln!("  [C12] {}", batches[0]);
+            all_batches.extend(batches);
         }
-    });
+    }
     if rep.one.is_none() {
-        let rs: Vec<Res> = results.lock().unwrap().iter().copied().filter(|r| r.done).collect();
-        let mut batches = vec![judge(&rep, "whole lattice", &rs)];
-        if thorough {
-            let all = results.lock().unwrap().clone();
-            for phase in 0..8u64 {
-                let sub: Vec<Res> = idxs.iter().zip(all.iter()).filter(|(i, r)| r.done && unrank(**i, &LATTICE_RADICES)[2] == phase).map(|(_, r)| *r).collect();
-                batches.push(judge(&rep, &format!("azimuth phase {phase}"), &sub));
-            }
-        }
-        eprintln!("  [C12] {}", batches[0]);
-        rep.cov("batch_statistics", json!(batches));
+        rep.cov("batch_statistics", json!(all_batches));
     }
     rep.finish()
 }
